@@ -10,18 +10,20 @@ SCRATCH = "/tmp/vrf_repo"
 
 
 def do_import():
+    """out/ -> <area>-rK (wave 1), out3/ -> w3<area>-rK, out4/ -> w4<area>-rK (wave 2 used /tmp/refac/w2/<area> -> w2<area>-rK)"""
     os.makedirs(DST, exist_ok=True)
-    for m in sorted(glob.glob("/tmp/refac/*/out/r*/meta.json")):
-        d = os.path.dirname(m)
-        area = d.split("/")[3]
-        name = f"{area}-{os.path.basename(d)}"
-        dst = os.path.join(DST, name)
-        if os.path.exists(dst) or not os.path.exists(os.path.join(d, "patch.diff")):
-            continue
-        os.makedirs(dst)
-        shutil.copy(os.path.join(d, "patch.diff"), dst)
-        shutil.copy(m, dst)
-        print("imported", name)
+    for sub, pre in (("out", ""), ("out3", "w3"), ("out4", "w4")):
+        for m in sorted(glob.glob(f"/tmp/refac/*/{sub}/r*/meta.json")):
+            d = os.path.dirname(m)
+            area = d.split("/")[3]
+            name = f"{pre}{area}-{os.path.basename(d)}"
+            dst = os.path.join(DST, name)
+            if os.path.exists(dst) or not os.path.exists(os.path.join(d, "patch.diff")):
+                continue
+            os.makedirs(dst)
+            shutil.copy(os.path.join(d, "patch.diff"), dst)
+            shutil.copy(m, dst)
+            print("imported", name)
 
 
 def fresh(scratch):
